@@ -74,3 +74,77 @@ static double vf_strtod(const char *s, char **end)
 #endif
 #define strtod vf_strtod
 #endif
+
+/* ------------------------------------------------------------------ sprintf / sscanf model
+ * Opt-in: define VF_MODEL_PRINTF before including this header; VF_INPUTS must then contain
+ *   X(unsigned char, g_text, [2][26]) X(double, g_val, )
+ * CBMC build : generic interpreter for the conversions the library uses: %d %i %lu %s %04x exact;
+ *              %1.15g / %1.17g write the nondeterministic text IN.g_text[0] / IN.g_text[1] (assumed to match the
+ *              grammar -?D+(.D+)?(e[+-]DD+)? with the locale decimal point, or inf/nan spellings, length <= 24);
+ *              sscanf("%lg") stores IN.g_val and returns 1.
+ * native     : real sprintf / sscanf. */
+#ifdef VF_MODEL_PRINTF
+#include <stdarg.h>
+static int vf_g_calls;
+#ifndef VF_NATIVE
+#ifndef VF_MAXDIGITS
+#define VF_MAXDIGITS 20
+#endif
+static size_t vf_put_ulong(char *o, unsigned long v)
+{
+    char tmp[24]; size_t n = 0, k;
+#if VF_MAXDIGITS <= 9
+    unsigned w = (unsigned)v;       /* 32 bit arithmetic is enough below 10^9 (cheaper to bit-blast) */
+    VF_BOUND(v <= 999999999UL, "integer wider than VF_MAXDIGITS");
+    do { tmp[n++] = (char)('0' + (w % 10)); w /= 10; } while (w != 0 && n < VF_MAXDIGITS);
+#else
+    do { tmp[n++] = (char)('0' + (v % 10)); v /= 10; } while (v != 0 && n < 22);
+#endif
+    for (k = 0; k < n; k++) o[k] = tmp[n - 1 - k];
+    return n;
+}
+static int vf_sprintf(char *out, const char *fmt, ...)
+{
+    va_list ap; size_t o = 0, f = 0;
+    va_start(ap, fmt);
+    while (fmt[f] != 0) {
+        if (fmt[f] != '%') { out[o++] = fmt[f++]; continue; }
+        f++;
+        if (fmt[f] == 'd' || fmt[f] == 'i') {
+            int v = va_arg(ap, int); unsigned long m;
+            if (v < 0) { out[o++] = '-'; m = (unsigned long)(-(long)v); } else m = (unsigned long)v;
+            o += vf_put_ulong(out + o, m); f++;
+        } else if (fmt[f] == 'l' && fmt[f + 1] == 'u') {
+            o += vf_put_ulong(out + o, va_arg(ap, unsigned long)); f += 2;
+        } else if (fmt[f] == 's') {
+            const char *s = va_arg(ap, const char *); size_t k = 0;
+            while (s[k] != 0) out[o++] = s[k++];
+            f++;
+        } else if (fmt[f] == '0' && fmt[f + 1] == '4' && fmt[f + 2] == 'x') {
+            unsigned v = (unsigned)va_arg(ap, unsigned char); int sh; /* CBMC does not apply the default argument promotions */
+            for (sh = 12; sh >= 0; sh -= 4) { unsigned d = (v >> sh) & 0xF; out[o++] = (char)(d < 10 ? '0' + d : 'a' + d - 10); }
+            f += 3;
+        } else if (fmt[f] == '1' && fmt[f + 1] == '.' && fmt[f + 2] == '1' && (fmt[f + 3] == '5' || fmt[f + 3] == '7') && fmt[f + 4] == 'g') {
+            int which = fmt[f + 3] == '7'; size_t k = 0; double d = va_arg(ap, double);
+            (void)d; vf_g_calls++;
+            while (k < 25 && IN.g_text[which][k] != 0) out[o++] = (char)IN.g_text[which][k++];
+            f += 5;
+        } else {
+            VF_BOUND(0, "sprintf conversion not modelled");
+            __CPROVER_assume(0);
+        }
+    }
+    va_end(ap);
+    out[o] = 0;
+    return (int)o;
+}
+static int vf_sscanf(const char *s, const char *fmt, double *out)
+{
+    (void)s; (void)fmt;
+    *out = IN.g_val;
+    return 1;
+}
+#define sprintf vf_sprintf
+#define sscanf vf_sscanf
+#endif
+#endif
